@@ -547,6 +547,14 @@ class FracLaplPlan:
         ndd = self.settings.ndd
         for i in range(ndd):
             feat[:, i - ndd] = rho_data[:, i - ndd]
+        if nspin > 1:
+            # Like all other feature plans, channel s holds the unpolarised
+            # feature of the density nspin * n_s: linear features scale with
+            # nspin, the l=1 dot products with nspin**2.
+            nfeat = self.settings.nfeat
+            feat[:, :nk0] *= nspin
+            feat[:, nk0 : nfeat - ndd] *= nspin * nspin
+            feat[:, nfeat - ndd :] *= nspin
         return feat
 
     def get_occd(self, rho_data, occd_data):
@@ -595,6 +603,14 @@ class FracLaplPlan:
         nspin = self.nspin
         assert vfeat.ndim == 3
         assert vfeat.shape[:2] == (nspin, self.settings.nfeat)
+        if nspin > 1:
+            # chain rule for the spin factors applied in get_feat
+            nfeat = self.settings.nfeat
+            ndd = self.settings.ndd
+            vfeat = vfeat.copy()
+            vfeat[:, :nk0] *= nspin
+            vfeat[:, nk0 : nfeat - ndd] *= nspin * nspin
+            vfeat[:, nfeat - ndd :] *= nspin
         ngrids = vfeat.shape[2]
         if vxc is None:
             vxc = np.zeros((nspin, self._nsl + self.settings.nrho, ngrids))
